@@ -35,7 +35,7 @@ def rt_inst(fmt, ns, aln, nls, sym_names=False, win=None, kind=None, prefix_name
                 defs=d, srcs=IO_SRCS, models=IO_MODELS, native_srcs=IO_NATIVE,
                 gi_args=["--replace-calls", "alloc_line_buffer:vk_alloc_line_buffer"],
                 flags=["--max-field-sensitivity-array-size", "256"],
-                unwind=max(aln + 3, 2 * out_lines + 2, w + 4, 102), unwind_pat=MK_MSA_UNWIND + [("alloc_msa", r"i < 128", 129)],
+                unwind=max(aln + 6, 2 * out_lines + 2, w + 4, 102), unwind_pat=MK_MSA_UNWIND + [("alloc_msa", r"i < 128", 129)],
                 solver=("cadical" if fmt == 2 else "minisat"), nb=2 + ns * (aln + 3), timeout=kw.pop("timeout", 600), mem_gb=kw.pop("mem_gb", 8),
                 funcs=["kalign_write_msa", "detect_alignment_format", {1: "write_msa_fasta", 2: "write_msa_msf", 3: "write_msa_clu"}[fmt],
                        {1: "read_fasta", 2: "read_msf", 3: "read_clu"}[fmt], "null_terminate_sequences"],
